@@ -43,6 +43,30 @@ def tok(t, perm=False):
     raise ValueError(t)
 
 
+DEFAULT_LABELS = {}      # filled from the spec (Labels0) by the driver / the worker job
+_SUB = {}
+
+
+def klass(kind, r):
+    """The class to instantiate: the pyGAPS class or a trivial user subclass of it."""
+    from pygaps.core.baseisotherm import BaseIsotherm
+    from pygaps.core.pointisotherm import PointIsotherm
+    from pygaps.core.modelisotherm import ModelIsotherm
+    base = {"base": BaseIsotherm, "point": PointIsotherm, "model": ModelIsotherm}[kind]
+    if not r.get("sub"):
+        return base
+    if kind not in _SUB:
+        _SUB[kind] = type("My" + base.__name__, (base,), {"__doc__": "a user subclass that adds nothing"})
+    return _SUB[kind]
+
+
+def earlier_isotherm_with_other_units():
+    """History for the 'dflt' routes: the session has just built an isotherm whose unit labels are all non-default."""
+    from pygaps.core.baseisotherm import BaseIsotherm
+    BaseIsotherm(material="earlier", adsorbate="nitrogen", temperature=30, pressure_mode="relative%", pressure_unit=None,
+                 loading_basis="mass", loading_unit="mg", material_basis="volume", material_unit="L", temperature_unit="°C")
+
+
 ADS = {"nitrogen": {"name": "nitrogen", "alias": "N2", "upper": "NITROGEN"},
        "argon": {"name": "argon", "alias": "Ar", "upper": "ARGON"}}
 
@@ -53,6 +77,11 @@ def common_kwargs(c, r):
     kw = []
     for k in ("pressure_mode", "pressure_unit", "loading_basis", "loading_unit", "material_basis", "material_unit", "temperature_unit"):
         v = lab[k]
+        if r.get("dflt"):
+            if not DEFAULT_LABELS:
+                raise RuntimeError("DEFAULT_LABELS not set")
+            if v == DEFAULT_LABELS[k]:
+                continue                      # rely on the documented default
         if v == "none":
             v = "bar" if perm else None       # a pressure unit given for a relative mode is dropped by the constructor
         if v == "degC":
@@ -77,10 +106,11 @@ def common_kwargs(c, r):
 def build_point(c, r):
     import numpy
     import pandas
-    from pygaps.core.baseisotherm import BaseIsotherm
-    from pygaps.core.pointisotherm import PointIsotherm
+    BaseIsotherm = klass("base", {})
+    PointIsotherm = klass("point", r)
     rows = c["rows"]
     as_int = r["lit"] == "int"
+    guess = r["br"] == "guess"
 
     def num(v):
         f = fx(v)
@@ -101,7 +131,11 @@ def build_point(c, r):
         elif cont == "ndarray":
             p, lo, marks = numpy.array(p), numpy.array(lo), numpy.array(marks)
         if r["via"] == "from_isotherm":
-            raise ValueError("from_isotherm route needs a branch column")
+            if not guess:
+                raise ValueError("from_isotherm route needs a branch column or guessed marks")
+            return PointIsotherm.from_isotherm(BaseIsotherm(**kw), pressure=p, loading=lo)
+        if guess:
+            return PointIsotherm(pressure=p, loading=lo, **kw)
         return PointIsotherm(pressure=p, loading=lo, branch=marks, **kw)
     cols = [("pressure", p), ("loading", lo)]
     if c["extras"]:
@@ -114,7 +148,7 @@ def build_point(c, r):
     index = {"df_default": None, "df_shift": list(range(5, 5 + n)), "df_str": [f"r{i}" for i in range(n)],
              "df_reversed_labels": list(range(n - 1, -1, -1))}[cont]
     df = pandas.DataFrame(dict(cols), index=index)
-    extra = {} if r["br"] in ("column", "column_bool") else {"branch": marks}
+    extra = {} if r["br"] in ("column", "column_bool") or guess else {"branch": marks}
     if r["via"] == "from_isotherm":
         base = BaseIsotherm(**kw)
         return PointIsotherm.from_isotherm(base, isotherm_data=df, pressure_key="pressure", loading_key="loading")
@@ -123,7 +157,7 @@ def build_point(c, r):
 
 def build_model(c, r):
     import numpy
-    from pygaps.core.modelisotherm import ModelIsotherm
+    ModelIsotherm = klass("model", r)
     from pygaps.modelling import get_isotherm_model, model_from_dict
     m = c["model"]
     lit = r["lit"]
@@ -152,9 +186,11 @@ def build_model(c, r):
 
 def materialise(entry):
     """entry: one row of the scenario table (content + route) -> the real isotherm object."""
-    from pygaps.core.baseisotherm import BaseIsotherm
     import pygaps.parsing as pgp
     c, r = entry["content"], entry["route"]
+    BaseIsotherm = klass("base", r)
+    if r.get("dflt"):
+        earlier_isotherm_with_other_units()
     if c["cls"] == "point":
         iso = build_point(c, r)
     elif c["cls"] == "model":
@@ -402,6 +438,7 @@ def worker(path_in, path_out):
     with open(path_in) as f:
         job = json.load(f)
     rng = random.Random(job["seed"])
+    DEFAULT_LABELS.update(job["defaults"])
     res = []
     for e in job["entries"]:
         o = observe(e, rng, 0)
